@@ -254,7 +254,15 @@ def main(tier):
         threads = rng.choice([2, 2, 3, 3, 4] if tier == "quick" else [2, 3, 4, 4, 6, 8])
         quit = [rng.choice(nodes)] if rng.random() < 0.4 else []
         err, skip = rand_err_skip(rng, tree, roots)
-        scens.append({"id": i + 1, "tree": tree, "roots": roots, "threads": threads, "seed": rng.randrange(1 << 30),
+        samefs = rng.random() < 0.3
+        if rng.random() < 0.25:
+            # standard input among the roots ("-": an entry that is handed out without being looked up in the file
+            # system), mostly together with same_file_system (which does look roots up)
+            tree = tree + ["<stdin>"]
+            roots = list(roots)
+            roots.insert(rng.randint(0, len(roots)), "<stdin>")
+            samefs = rng.random() < 0.8
+        scens.append({"id": i + 1, "tree": tree, "roots": roots, "threads": threads, "seed": rng.randrange(1 << 30), "samefs": samefs,
                       "mode": rng.choice(["random", "pct", "pct"]), "quit": quit, "err": err, "skip": skip, "max_steps": 40000,
                       "badparent": rng.random() < 0.25,
                       "pct_depth": rng.randint(1, 4), "pct_horizon": 20 + 8 * len(nodes)})
